@@ -340,13 +340,48 @@ enum T {
     Snap(usize, i32),
     /// a tick number that does not increase (0 = equal, negative = lower); must be refused
     BadTick(i32),
+    /// a call the writer may refuse for another reason: 0 = the same (object, id) twice,
+    /// 1 = more objects than a snapshot holds, 2 = a snapshot whose byte form is longer than
+    /// 64 KiB (750 objects of 17 five-byte values). Whatever it answers, what it accepts
+    /// afterwards must be played back exactly
+    Awkward(u8),
+    /// `DemoWriter::write_msg` with game message number i of `messages()`
+    Msg(usize),
+}
+
+/// Game messages for `DemoWriter::write_msg`: (encoded form as the reader must decode it, closure
+/// index). Built on demand because they borrow.
+fn with_message<R>(i: usize, f: impl FnOnce(&libtw2_gamenet_ddnet::msg::Game) -> R) -> R {
+    use libtw2_gamenet_ddnet::msg::game::*;
+    use libtw2_gamenet_ddnet::msg::Game;
+    let long = vec![b'a'; 70000];
+    let mid = vec![b'b'; 300];
+    match i {
+        0 => f(&Game::SvReadyToEnter(SvReadyToEnter)),
+        1 => f(&Game::SvChat(SvChat { team: 0, client_id: 5, message: b"hello" })),
+        2 => f(&Game::SvChat(SvChat { team: 1, client_id: -1, message: b"" })),
+        3 => f(&Game::SvChat(SvChat { team: 0, client_id: 7, message: &mid })),
+        4 => f(&Game::SvBroadcast(SvBroadcast { message: b"abc" })),
+        // does not fit the writer's 64 KiB buffer: must be refused, and the recording stays usable
+        _ => f(&Game::SvChat(SvChat { team: 0, client_id: 5, message: &long })),
+    }
+}
+const NUM_MESSAGES: usize = 6;
+
+fn encode_message(m: &libtw2_gamenet_ddnet::msg::Game) -> Option<Vec<u8>> {
+    let mut buf: Vec<u8> = Vec::with_capacity(80000);
+    libtw2_packer::with_packer(&mut buf, |p| m.encode(p).map(|b| b.len())).ok()?;
+    Some(buf)
 }
 
 fn typed(hist: &[T]) -> Result<String, String> {
     let sets = object_sets();
     let mut file = Cursor::new(Vec::new());
     let mut expected: Vec<(i32, Vec<(String, u16, Vec<i32>)>)> = Vec::new();
+    // messages in the order written, with the number of snapshots written before each
+    let mut expected_msgs: Vec<(usize, Vec<u8>)> = Vec::new();
     let mut refused = 0;
+    let mut awkward = String::new();
     {
         let mut w: DemoWriter<Protocol> = DemoWriter::new(&mut file, b"0.6 626fce9a778df4d4", b"dm1", None, 0, DemoKind::Server, 0, b"2024-01-01", &[]).map_err(|e| format!("DemoWriter::new: {:?}", e))?;
         let mut tick = 0;
@@ -369,6 +404,40 @@ fn typed(hist: &[T]) -> Result<String, String> {
                         Ok(()) => return Err(format!("write_snap accepted tick {} after tick {}", bad, tick)),
                     }
                 }
+                T::Awkward(kind) => {
+                    let t = tick + 1;
+                    let ci = |v: i32| SnapObj::ClientInfo(snap_obj::ClientInfo { name: [v; 4], clan: [v; 3], country: v, skin: [v; 6], use_custom_color: 1, color_body: v, color_feet: v });
+                    let set: Vec<(SnapObj, u16)> = match kind {
+                        0 => vec![sets[1][0].clone(), sets[4][2].clone(), sets[1][0].clone()],
+                        1 => (0..1030u16).map(|i| (SnapObj::SpectatorCount(snap_obj::SpectatorCount { num_spectators: 1 }), i)).collect(),
+                        _ => (0..800u16).map(|i| (ci(i32::MIN), i)).collect(),
+                    };
+                    // (a panic of the raw writer about a payload it cannot store is outside what the
+                    // property promises; the history ends there without a verdict)
+                    match vp_core::catch(|| w.write_snap(t, set.iter().map(|(o, id)| (o, *id)))) {
+                        Ok(Ok(())) => {
+                            if *kind == 0 {
+                                return Err("write_snap accepted the same (object, id) twice".into());
+                            }
+                            tick = t;
+                            let mut e: Vec<_> = set.iter().map(obj_key).collect();
+                            e.sort();
+                            expected.push((tick, e));
+                            awkward.push_str(&format!(":awkward{}-accepted", kind));
+                        }
+                        Ok(Err(_)) => awkward.push_str(&format!(":awkward{}-refused", kind)),
+                        Err(p) => return Ok(format!("typed:awkward{}-panicked:{}", kind, vp_core::panic_sig(&p))),
+                    }
+                }
+                T::Msg(i) => {
+                    let r = with_message(*i, |m| (w.write_msg(m).is_ok(), encode_message(m)));
+                    match r {
+                        (true, Some(enc)) => expected_msgs.push((expected.len(), enc)),
+                        (true, None) => return Err("write_msg accepted a message that cannot be encoded".into()),
+                        (false, _) if *i + 1 < NUM_MESSAGES => return Err(format!("write_msg refused message {}", i)),
+                        (false, _) => awkward.push_str(":long-message-refused"),
+                    }
+                }
             }
         }
     }
@@ -382,6 +451,7 @@ fn typed(hist: &[T]) -> Result<String, String> {
     }
     let mut r: DemoReader<Protocol> = DemoReader::new(Cursor::new(&bytes[..]), &mut W(&mut warn)).map_err(|e| format!("DemoReader::new: {:?}", e))?;
     let mut got: Vec<(i32, Vec<(String, u16, Vec<i32>)>)> = Vec::new();
+    let mut got_msgs: Vec<(usize, Vec<u8>)> = Vec::new();
     let mut cur_tick = None;
     loop {
         match r.next_chunk(&mut W(&mut warn)).map_err(|e| format!("next_chunk: {:?}", e))? {
@@ -392,7 +462,7 @@ fn typed(hist: &[T]) -> Result<String, String> {
                 e.sort();
                 got.push((cur_tick.ok_or("snapshot before any tick")?, e));
             }
-            Some(Chunk::Message(_)) => return Err("unexpected message".into()),
+            Some(Chunk::Message(m)) => got_msgs.push((got.len(), encode_message(&m).ok_or("the message read back cannot be encoded")?)),
             Some(Chunk::Invalid) => return Err("invalid chunk".into()),
         }
     }
@@ -403,10 +473,14 @@ fn typed(hist: &[T]) -> Result<String, String> {
         let first = got.iter().zip(&expected).position(|(a, b)| a != b).unwrap_or(got.len().min(expected.len()));
         return Err(format!("object sets differ at snapshot {} of {}: read {:?}, written {:?}", first, expected.len(), got.get(first), expected.get(first)));
     }
-    Ok(format!("typed:snaps{}:refused{}", expected.len(), refused))
+    if got_msgs != expected_msgs {
+        let first = got_msgs.iter().zip(&expected_msgs).position(|(a, b)| a != b).unwrap_or(got_msgs.len().min(expected_msgs.len()));
+        return Err(format!("messages differ at message {} of {}: read {:?}, written {:?}", first, expected_msgs.len(), got_msgs.get(first).map(|m| (m.0, m.1.len(), &m.1[..m.1.len().min(12)])), expected_msgs.get(first).map(|m| (m.0, m.1.len(), &m.1[..m.1.len().min(12)]))));
+    }
+    Ok(format!("typed:snaps{}:refused{}:msgs{}{}", expected.len().min(3), refused.min(2), expected_msgs.len().min(2), awkward))
 }
 
-fn typed_level(run: &Arc<Run>, depth: usize) {
+fn typed_level(run: &Arc<Run>, depth: usize, extended: bool) {
     let nsets = object_sets().len();
     let mut alpha: Vec<T> = Vec::new();
     for wi in 0..nsets {
@@ -417,6 +491,15 @@ fn typed_level(run: &Arc<Run>, depth: usize) {
     alpha.push(T::BadTick(0));
     alpha.push(T::BadTick(-1));
     alpha.push(T::BadTick(-1000));
+    if extended {
+        for k in 0..3 {
+            alpha.push(T::Awkward(k));
+        }
+        for i in 0..NUM_MESSAGES {
+            alpha.push(T::Msg(i));
+        }
+    }
+
     let n = alpha.len();
     let total: usize = (1..=depth).map(|d| n.pow(d as u32)).sum();
     let lc = (0..total)
@@ -453,10 +536,12 @@ fn main() {
     let run = Run::new("C15", "exploration");
     let thorough = run.tier == Tier::Thorough;
     raw_level(&run, if thorough { 5 } else { 4 });
-    typed_level(&run, if thorough { 6 } else { 5 });
+    typed_level(&run, if thorough { 6 } else { 5 }, false);
+    // with calls the writer may refuse for other reasons and game messages (27 symbols): one step less
+    typed_level(&run, if thorough { 5 } else { 4 }, true);
     run.assume("raw writer: tick numbers strictly increase (its documented precondition); payloads whose compressed form does not fit a 16-bit size are not 'accepted by the writer' and are not generated");
     run.finish(
-        "raw level: all chunk sequences up to the depth over {tick +1/+31/+32/+33, key-frame ticks, snapshot / delta payloads with compressed sizes on both sides of 29/30 and 255/256, messages of length 0,1,3,4,5,64,100}, every payload size incl. the largest representable, header strings of every length, every tick gap 1..1100 and around every power of two up to 2^30, every pair of absolute tick numbers out of 31 values from i32::MIN to i32::MAX (negative ticks, gaps wider than i32::MAX); typed level: all world histories up to the depth over 5 object sets (ordinal objects, UUID-typed objects of sizes 1 and 2) x tick steps {+1,+250,+251} x non-increasing ticks (must be refused, recording stays usable); written with the real writers into memory, read back with the real readers, compared chunk by chunk, zero warnings",
+        "raw level: all chunk sequences up to the depth over {tick +1/+31/+32/+33, key-frame ticks, snapshot / delta payloads with compressed sizes on both sides of 29/30 and 255/256, messages of length 0,1,3,4,5,64,100}, every payload size incl. the largest representable, header strings of every length, every tick gap 1..1100 and around every power of two up to 2^30, every pair of absolute tick numbers out of 31 values from i32::MIN to i32::MAX (negative ticks, gaps wider than i32::MAX); typed level: all world histories up to the depth over 5 object sets (ordinal objects, UUID-typed objects of sizes 1 and 2) x tick steps {+1,+250,+251} x non-increasing ticks (must be refused, recording stays usable), and one step shorter with calls the writer may refuse for another reason (the same object twice, 1030 objects, a snapshot whose byte form exceeds 64 KiB, a 70000-byte chat message) and game messages through DemoWriter::write_msg - whatever is accepted after a refusal must be played back exactly; written with the real writers into memory, read back with the real readers, compared chunk by chunk, zero warnings",
         true,
     );
 }
